@@ -71,6 +71,15 @@ func VerifHarness_C16_piping() {
 	if len(peerConn.Written) == 2 {
 		vAssert(vBytesEq(peerConn.Written[1], x2), "C16.client_bytes_reach_the_peer_in_order")
 	}
+	// a second ConnectionBind for the id that is already bound and relaying (from anybody) is refused and must
+	// not disturb the live pair
+	again := vNewMsg(stun.MethodConnectionBind, stun.ClassRequest, append([]stun.Setter{id0}, vCreds()...)...)
+	req2 := s.request(c1)
+	dataConn2 := &allocation.VConn{Remote: c1}
+	req2.Conn = proto.NewSTUNConn(dataConn2)
+	_ = handleConnectionBindRequest(req2, again)
+	vAssert(!done, "C16.repeated_bind_does_not_end_the_live_relay")
+	vAssert(vAnd(peerConn.Closed == 0, a.VHasTCPConn(id0)), "C16.repeated_bind_leaves_the_bound_connection_alone")
 	// the client closes its data connection: both connections are closed, the id is forgotten, the handler returns
 	dataConn.WGate, peerConn.WGate = nil, nil
 	dataConn.EOF()
